@@ -465,3 +465,8 @@ Theorem type_error_noop : forall s c id cl i a,
   owner_of c (bound s) = Some (i, a) -> cls_sub cl (attr_cls a) = false ->
   burst s [(c, (id, cl))] = (s, [DTypeErr]).
 Proof. intros s c id cl i a O E. simpl. now rewrite O, E. Qed.
+
+(* C11: an event dispatched on a channel leaves every stream not subscribed to it untouched *)
+Theorem not_subscribed_untouched : forall c e l i st,
+  nth_error l i = Some st -> subscribed c st = false -> nth_error (fst (deliver_all c e l)) i = Some st.
+Proof. intros c e l i st H S. rewrite deliver_all_pointwise, H, S. reflexivity. Qed.
